@@ -201,7 +201,7 @@ type Clock struct {
 	// fell although the sleep's context is not derived from the caller's: the
 	// real sleep would run to its end, whatever the deadline.
 	UnboundSleepsCrossing int
-	Sleeps            []time.Duration
+	Sleeps                []time.Duration
 }
 
 // Charge advances time by d, expiring the context if the deadline is crossed.
